@@ -80,14 +80,14 @@ theorem AgreeBelow.trans {n : Nat} {σ τ ρ : Assign} (h : AgreeBelow n σ τ) 
 theorem AgreeBelow.mono {n m : Nat} {σ τ : Assign} (h : AgreeBelow n σ τ) (hm : m ≤ n) :
     AgreeBelow m σ τ := fun v h1 h2 => h v h1 (by omega)
 
-theorem all_congr_mem {α} (l : List α) (p q : α → Bool) (h : ∀ a ∈ l, p a = q a) :
+private theorem all_congr_mem {α} (l : List α) (p q : α → Bool) (h : ∀ a ∈ l, p a = q a) :
     l.all p = l.all q := by
   induction l with
   | nil => rfl
   | cons a as ih =>
     simp only [List.all_cons, h a (by simp), ih (fun b hb => h b (by simp [hb]))]
 
-theorem any_congr_mem {α} (l : List α) (p q : α → Bool) (h : ∀ a ∈ l, p a = q a) :
+private theorem any_congr_mem {α} (l : List α) (p q : α → Bool) (h : ∀ a ∈ l, p a = q a) :
     l.any p = l.any q := by
   induction l with
   | nil => rfl
@@ -141,5 +141,414 @@ theorem tclsSat_append (τ : Assign) (xs ys : List (List TLit)) :
 theorem tclsSat_reverse (τ : Assign) (xs : List (List TLit)) :
     tclsSat τ xs.reverse = tclsSat τ xs := by
   simp [tclsSat]
+
+/-! ### The state invariant -/
+
+/-- Invariant of the Tseitin state for a run started with counter `n` and empty cache. -/
+structure Inv (n : Nat) (P : Nat → Prop) (s : TState) : Prop where
+  le : n ≤ s.next
+  cache : ∀ k v, (k, v) ∈ s.cache → n ≤ v ∧ v < s.next ∧
+    ∀ τ, tclsSat τ s.clauses = true → τ v = keyVal τ k
+  lits : ∀ c ∈ s.clauses, ∀ l ∈ c, LitOK n P s.next l.v
+  ex : ∀ σ : Assign, ∃ τ, AgreeBelow n σ τ ∧ tclsSat τ s.clauses = true
+  uniq : ∀ τ₁ τ₂, tclsSat τ₁ s.clauses = true → tclsSat τ₂ s.clauses = true →
+    AgreeBelow n τ₁ τ₂ → AgreeBelow s.next τ₁ τ₂
+
+/-- `s'` is a later state than `s`. -/
+structure Ext (s s' : TState) : Prop where
+  next_le : s.next ≤ s'.next
+  sat : ∀ τ, tclsSat τ s'.clauses = true → tclsSat τ s.clauses = true
+
+theorem Ext.refl (s : TState) : Ext s s := ⟨Nat.le_refl _, fun _ h => h⟩
+theorem Ext.trans {s s' s'' : TState} (h : Ext s s') (h' : Ext s' s'') : Ext s s'' :=
+  ⟨Nat.le_trans h.1 h'.1, fun τ ht => h.2 τ (h'.2 τ ht)⟩
+
+theorem Inv.init (n : Nat) (P : Nat → Prop) : Inv n P { next := n, cache := [], clauses := [] } where
+  le := Nat.le_refl _
+  cache := by simp
+  lits := by simp
+  ex := fun σ => ⟨σ, AgreeBelow.refl _ _, by simp [tclsSat]⟩
+  uniq := fun _ _ _ _ h => h
+
+theorem lookup_some {s : TState} {k : TKey} {v : Nat} (h : s.lookup k = some v) :
+    (k, v) ∈ s.cache := by
+  unfold TState.lookup at h
+  cases hf : s.cache.find? (fun e => e.1 == k) with
+  | none => simp [hf] at h
+  | some e =>
+    simp only [hf, Option.map_some, Option.some.injEq] at h
+    have h1 := List.find?_some hf
+    have h2 := List.mem_of_find?_eq_some hf
+    simp only [beq_iff_eq] at h1
+    cases e with | mk a b =>
+    simp only at h h1
+    subst h h1
+    exact h2
+
+theorem getOrDefine_spec {n : Nat} {P : Nat → Prop} {s : TState} {k : TKey}
+    {defs : Int → List (List TLit)} (hn : 0 < n) (hI : Inv n P s)
+    (hk : ∀ v ∈ keyLits k, LitOK n P s.next v)
+    (hdef : ∀ (r : Int) (τ : Assign), tclsSat τ (defs r) = (litVal τ r == keyVal τ k))
+    (hlits : ∀ (r : Int), ∀ c ∈ defs r, ∀ l ∈ c, l.v = r ∨ l.v ∈ keyLits k) :
+    Inv n P (s.getOrDefine k defs).2 ∧ Ext s (s.getOrDefine k defs).2 ∧
+    LitOK n P (s.getOrDefine k defs).2.next (s.getOrDefine k defs).1 ∧
+    ∀ τ, tclsSat τ (s.getOrDefine k defs).2.clauses = true →
+      litVal τ (s.getOrDefine k defs).1 = keyVal τ k := by
+  unfold TState.getOrDefine
+  cases hl : s.lookup k with
+  | some v =>
+    simp only
+    obtain ⟨h1, h2, h3⟩ := hI.cache k v (lookup_some hl)
+    refine ⟨hI, Ext.refl s, ⟨by omega, by omega, fun h => by omega⟩, fun τ hτ => ?_⟩
+    rw [litVal_natCast τ v (by omega)]
+    exact h3 τ hτ
+  | none =>
+    simp only
+    have hle := hI.le
+    have hklt : ∀ v ∈ keyLits k, v ≠ 0 ∧ v.natAbs < s.next := fun v hv => ⟨(hk v hv).1, (hk v hv).2.1⟩
+    have hclt : ∀ c ∈ s.clauses, ∀ l ∈ c, l.v ≠ 0 ∧ l.v.natAbs < s.next :=
+      fun c hc l hl => ⟨(hI.lits c hc l hl).1, (hI.lits c hc l hl).2.1⟩
+    have hnew : ∀ τ, tclsSat τ ((defs (s.next : Int)).reverse ++ s.clauses) = true →
+        τ s.next = keyVal τ k ∧ tclsSat τ s.clauses = true := by
+      intro τ hτ
+      rw [tclsSat_append, tclsSat_reverse, hdef, litVal_natCast τ s.next (by omega)] at hτ
+      simp only [Bool.and_eq_true, beq_iff_eq] at hτ
+      exact hτ
+    refine ⟨⟨by simp only; omega, ?_, ?_, ?_, ?_⟩, ⟨by simp, fun τ hτ => (hnew τ hτ).2⟩,
+      ⟨by omega, by simp, fun h => by simp at h; omega⟩, fun τ hτ => ?_⟩
+    · intro k' v hmem
+      simp only [List.mem_cons, Prod.mk.injEq] at hmem
+      rcases hmem with ⟨rfl, rfl⟩ | hmem
+      · exact ⟨hle, Nat.lt_succ_self _, fun τ hτ => (hnew τ hτ).1⟩
+      · obtain ⟨h1, h2, h3⟩ := hI.cache k' v hmem
+        exact ⟨h1, Nat.lt_succ_of_lt h2, fun τ hτ => h3 τ (hnew τ hτ).2⟩
+    · intro c hc l hl
+      simp only [List.mem_append, List.mem_reverse] at hc
+      rcases hc with hc | hc
+      · rcases hlits _ c hc l hl with h | h
+        · rw [h]; exact ⟨by omega, by simp, fun h => by simp at h; omega⟩
+        · exact (hk _ h).mono (Nat.le_succ _)
+      · exact (hI.lits c hc l hl).mono (Nat.le_succ _)
+    · intro σ
+      obtain ⟨τ, hag, hsat⟩ := hI.ex σ
+      let τ' : Assign := fun v => if v = s.next then keyVal τ k else τ v
+      have hag' : AgreeBelow s.next τ τ' := by
+        intro v _ hv
+        have : v ≠ s.next := by omega
+        simp [τ', this]
+      refine ⟨τ', hag.trans (hag'.mono hle), ?_⟩
+      rw [tclsSat_append, tclsSat_reverse, hdef, litVal_natCast τ' s.next (by omega),
+        ← tclsSat_congr hag' s.clauses hclt, ← keyVal_congr hag' k hklt, hsat]
+      simp [τ']
+    · intro τ₁ τ₂ h₁ h₂ hag
+      have hb := hI.uniq τ₁ τ₂ (hnew τ₁ h₁).2 (hnew τ₂ h₂).2 hag
+      intro v hv1 hv2
+      by_cases hv : v = s.next
+      · subst hv
+        rw [(hnew τ₁ h₁).1, (hnew τ₂ h₂).1]
+        exact keyVal_congr hb k hklt
+      · exact hb v hv1 (by simp only at hv2; omega)
+    · rw [litVal_natCast τ s.next (by omega)]
+      exact (hnew τ hτ).1
+
+private theorem any_not_eq (l : List Int) (p : Int → Bool) : l.any (fun v => !p v) = !l.all p := by
+  induction l with
+  | nil => rfl
+  | cons a as ih => simp only [List.any_cons, List.all_cons, ih, Bool.not_and]
+
+private theorem all_or_const (l : List Int) (p : Int → Bool) (x : Bool) :
+    l.all (fun v => p v || x) = (x || l.all p) := by
+  induction l with
+  | nil => simp
+  | cons a as ih => simp only [List.all_cons, ih]; cases x <;> cases p a <;> simp
+
+private theorem any_and_const (l : List Int) (p : Int → Bool) (x : Bool) :
+    l.all (fun v => !p v || x) = (x || !l.any p) := by
+  induction l with
+  | nil => simp
+  | cons a as ih => simp only [List.all_cons, List.any_cons, ih]; cases x <;> cases p a <;> simp
+
+theorem andDefs_sat (τ : Assign) (vs : List Int) (r : Int) :
+    tclsSat τ ((vs.map ngt ++ [pos r]) :: vs.map (fun v => [pos v, ngt r]))
+      = (litVal τ r == keyVal τ (.and vs)) := by
+  simp only [tclsSat, tclSat, keyVal, List.all_cons, List.any_append, List.any_map, List.all_map,
+    Function.comp_def, List.any_cons, List.any_nil, tlitVal_pos, tlitVal_ngt, Bool.or_false]
+  rw [any_not_eq, all_or_const]
+  cases litVal τ r <;> cases vs.all (litVal τ) <;> rfl
+
+theorem orDefs_sat (τ : Assign) (vs : List Int) (r : Int) :
+    tclsSat τ ((vs.map pos ++ [ngt r]) :: vs.map (fun v => [ngt v, pos r]))
+      = (litVal τ r == keyVal τ (.or vs)) := by
+  simp only [tclsSat, tclSat, keyVal, List.all_cons, List.any_append, List.any_map, List.all_map,
+    Function.comp_def, List.any_cons, List.any_nil, tlitVal_pos, tlitVal_ngt, Bool.or_false]
+  rw [any_and_const]
+  have : vs.any (fun x => litVal τ x) = vs.any (litVal τ) := rfl
+  rw [this]
+  cases litVal τ r <;> cases vs.any (litVal τ) <;> rfl
+
+theorem notDefs_sat (τ : Assign) (a r : Int) :
+    tclsSat τ [[pos a, pos r], [ngt a, ngt r]] = (litVal τ r == keyVal τ (.not a)) := by
+  simp only [tclsSat, tclSat, keyVal, List.all_cons, List.all_nil, List.any_cons, List.any_nil,
+    tlitVal_pos, tlitVal_ngt]
+  cases litVal τ r <;> cases litVal τ a <;> rfl
+
+theorem impDefs_sat (τ : Assign) (a b r : Int) :
+    tclsSat τ [[ngt a, pos b, ngt r], [pos a, pos r], [ngt b, pos r]]
+      = (litVal τ r == keyVal τ (.imp a b)) := by
+  simp only [tclsSat, tclSat, keyVal, List.all_cons, List.all_nil, List.any_cons, List.any_nil,
+    tlitVal_pos, tlitVal_ngt]
+  cases litVal τ r <;> cases litVal τ a <;> cases litVal τ b <;> rfl
+
+theorem iffDefs_sat (τ : Assign) (a b r : Int) :
+    tclsSat τ [[pos a, pos b, pos r], [ngt a, ngt b, pos r], [pos a, ngt b, ngt r],
+        [ngt a, pos b, ngt r]]
+      = (litVal τ r == keyVal τ (.iff a b)) := by
+  simp only [tclsSat, tclSat, keyVal, List.all_cons, List.all_nil, List.any_cons, List.any_nil,
+    tlitVal_pos, tlitVal_ngt]
+  cases litVal τ r <;> cases litVal τ a <;> cases litVal τ b <;> rfl
+
+theorem andDefs_lits (vs : List Int) (r : Int) :
+    ∀ c ∈ (vs.map ngt ++ [pos r]) :: vs.map (fun v => [pos v, ngt r]), ∀ l ∈ c,
+      l.v = r ∨ l.v ∈ keyLits (.and vs) := by
+  intro c hc l hl
+  simp only [List.mem_cons, List.mem_map, keyLits] at hc ⊢
+  rcases hc with rfl | ⟨v, hv, rfl⟩
+  · simp only [List.mem_append, List.mem_map, List.mem_singleton] at hl
+    rcases hl with ⟨v, hv, rfl⟩ | rfl
+    · right; exact hv
+    · left; rfl
+  · simp only [List.mem_cons, List.not_mem_nil, or_false] at hl
+    rcases hl with rfl | rfl
+    · right; exact hv
+    · left; rfl
+
+theorem orDefs_lits (vs : List Int) (r : Int) :
+    ∀ c ∈ (vs.map pos ++ [ngt r]) :: vs.map (fun v => [ngt v, pos r]), ∀ l ∈ c,
+      l.v = r ∨ l.v ∈ keyLits (.or vs) := by
+  intro c hc l hl
+  simp only [List.mem_cons, List.mem_map, keyLits] at hc ⊢
+  rcases hc with rfl | ⟨v, hv, rfl⟩
+  · simp only [List.mem_append, List.mem_map, List.mem_singleton] at hl
+    rcases hl with ⟨v, hv, rfl⟩ | rfl
+    · right; exact hv
+    · left; rfl
+  · simp only [List.mem_cons, List.not_mem_nil, or_false] at hl
+    rcases hl with rfl | rfl
+    · right; exact hv
+    · left; rfl
+
+theorem notDefs_lits (a r : Int) :
+    ∀ c ∈ [[pos a, pos r], [ngt a, ngt r]], ∀ l ∈ c, l.v = r ∨ l.v ∈ keyLits (.not a) := by
+  intro c hc l hl
+  simp only [List.mem_cons, List.not_mem_nil, or_false] at hc
+  rcases hc with rfl | rfl <;>
+    simp only [List.mem_cons, List.not_mem_nil, or_false] at hl <;>
+    rcases hl with rfl | rfl <;> simp [keyLits, pos, ngt]
+
+theorem impDefs_lits (a b r : Int) :
+    ∀ c ∈ [[ngt a, pos b, ngt r], [pos a, pos r], [ngt b, pos r]], ∀ l ∈ c,
+      l.v = r ∨ l.v ∈ keyLits (.imp a b) := by
+  intro c hc l hl
+  simp only [List.mem_cons, List.not_mem_nil, or_false] at hc
+  rcases hc with rfl | rfl | rfl <;>
+    simp only [List.mem_cons, List.not_mem_nil, or_false] at hl <;>
+    rcases hl with rfl | rfl | rfl <;> simp [keyLits, pos, ngt]
+
+theorem iffDefs_lits (a b r : Int) :
+    ∀ c ∈ [[pos a, pos b, pos r], [ngt a, ngt b, pos r], [pos a, ngt b, ngt r],
+        [ngt a, pos b, ngt r]], ∀ l ∈ c,
+      l.v = r ∨ l.v ∈ keyLits (.iff a b) := by
+  intro c hc l hl
+  simp only [List.mem_cons, List.not_mem_nil, or_false] at hc
+  rcases hc with rfl | rfl | rfl | rfl <;>
+    simp only [List.mem_cons, List.not_mem_nil, or_false] at hl <;>
+    rcases hl with rfl | rfl | rfl <;> simp [keyLits, pos, ngt]
+
+/-! ### The representation lemma -/
+
+def RepSpec (n : Nat) (P : Nat → Prop) (f : Formula) (s : TState) : Prop :=
+  Inv n P s → f.WF n → (∀ v ∈ f.vars, P v) →
+    Inv n P (tseitinRep f s).2 ∧ Ext s (tseitinRep f s).2 ∧
+    LitOK n P (tseitinRep f s).2.next (tseitinRep f s).1 ∧
+    ∀ τ, tclsSat τ (tseitinRep f s).2.clauses = true →
+      litVal τ (tseitinRep f s).1 = f.eval τ
+
+def RepsSpec (n : Nat) (P : Nat → Prop) (l : List Formula) (s : TState) : Prop :=
+  Inv n P s → Formula.WFs n l → (∀ v ∈ Formula.varsList l, P v) →
+    Inv n P (tseitinReps l s).2 ∧ Ext s (tseitinReps l s).2 ∧
+    (∀ v ∈ (tseitinReps l s).1, LitOK n P (tseitinReps l s).2.next v) ∧
+    ∀ τ, tclsSat τ (tseitinReps l s).2.clauses = true →
+      (tseitinReps l s).1.map (litVal τ) = l.map (eval τ)
+
+private theorem all_of_map_eq {α β} (l : List α) (l' : List β) (p : α → Bool) (q : β → Bool)
+    (h : l.map p = l'.map q) : l.all p = l'.all q := by
+  have : (l.map p).all id = (l'.map q).all id := by rw [h]
+  simpa [List.all_map, Function.comp_def] using this
+
+private theorem any_of_map_eq {α β} (l : List α) (l' : List β) (p : α → Bool) (q : β → Bool)
+    (h : l.map p = l'.map q) : l.any p = l'.any q := by
+  have : (l.map p).any id = (l'.map q).any id := by rw [h]
+  simpa [List.any_map, Function.comp_def] using this
+
+theorem tseitin_spec (n : Nat) (P : Nat → Prop) (hn : 0 < n) :
+    (∀ f s, RepSpec n P f s) ∧ (∀ l s, RepsSpec n P l s) := by
+  apply tseitinRep.mutual_induct
+  · -- lit
+    intro i s hI hwf hP
+    simp only [tseitinRep]
+    simp only [Formula.WF] at hwf
+    refine ⟨hI, Ext.refl s, ⟨hwf.1, by have := hI.le; omega, fun _ => hP _ (by simp [Formula.vars])⟩,
+      fun τ _ => by simp [eval]⟩
+  · -- and
+    intro l s vs s1 heq ih hI hwf hP
+    obtain ⟨hI1, hE1, hL1, hS1⟩ := ih hI (by simpa [Formula.WF] using hwf)
+      (by simpa [Formula.vars] using hP)
+    simp only [heq] at hI1 hE1 hL1 hS1
+    simp only [tseitinRep, heq]
+    obtain ⟨h1, h2, h3, h4⟩ := getOrDefine_spec (k := .and vs) hn hI1 hL1
+      (fun r τ => andDefs_sat τ vs r) (fun r => andDefs_lits vs r)
+    refine ⟨h1, hE1.trans h2, h3, fun τ hτ => ?_⟩
+    rw [h4 τ hτ]
+    simp only [keyVal, eval, evalAll_eq_all]
+    exact all_of_map_eq _ _ _ _ (hS1 τ (h2.sat τ hτ))
+  · -- or
+    intro l s vs s1 heq ih hI hwf hP
+    obtain ⟨hI1, hE1, hL1, hS1⟩ := ih hI (by simpa [Formula.WF] using hwf)
+      (by simpa [Formula.vars] using hP)
+    simp only [heq] at hI1 hE1 hL1 hS1
+    simp only [tseitinRep, heq]
+    obtain ⟨h1, h2, h3, h4⟩ := getOrDefine_spec (k := .or vs) hn hI1 hL1
+      (fun r τ => orDefs_sat τ vs r) (fun r => orDefs_lits vs r)
+    refine ⟨h1, hE1.trans h2, h3, fun τ hτ => ?_⟩
+    rw [h4 τ hτ]
+    simp only [keyVal, eval, evalAny_eq_any]
+    exact any_of_map_eq _ _ _ _ (hS1 τ (h2.sat τ hτ))
+  · -- imp
+    intro p q s a s1 heq1 b s2 heq2 ihp ihq hI hwf hP
+    simp only [Formula.WF] at hwf
+    simp only [Formula.vars, List.mem_append] at hP
+    obtain ⟨hI1, hE1, hL1, hS1⟩ := ihp hI hwf.1 (fun v hv => hP v (Or.inl hv))
+    simp only [heq1] at hI1 hE1 hL1 hS1
+    obtain ⟨hI2, hE2, hL2, hS2⟩ := ihq hI1 hwf.2 (fun v hv => hP v (Or.inr hv))
+    simp only [heq2] at hI2 hE2 hL2 hS2
+    simp only [tseitinRep, heq1, heq2]
+    obtain ⟨h1, h2, h3, h4⟩ := getOrDefine_spec (k := .imp a b) hn hI2
+      (by
+        intro v hv
+        simp only [keyLits, List.mem_cons, List.not_mem_nil, or_false] at hv
+        rcases hv with rfl | rfl
+        · exact hL1.mono hE2.next_le
+        · exact hL2)
+      (fun r τ => impDefs_sat τ a b r) (fun r => impDefs_lits a b r)
+    refine ⟨h1, (hE1.trans hE2).trans h2, h3, fun τ hτ => ?_⟩
+    rw [h4 τ hτ]
+    simp only [keyVal, eval]
+    rw [hS2 τ (h2.sat τ hτ), hS1 τ (hE2.sat τ (h2.sat τ hτ))]
+  · -- iff
+    intro p q s a s1 heq1 b s2 heq2 ihp ihq hI hwf hP
+    simp only [Formula.WF] at hwf
+    simp only [Formula.vars, List.mem_append] at hP
+    obtain ⟨hI1, hE1, hL1, hS1⟩ := ihp hI hwf.1 (fun v hv => hP v (Or.inl hv))
+    simp only [heq1] at hI1 hE1 hL1 hS1
+    obtain ⟨hI2, hE2, hL2, hS2⟩ := ihq hI1 hwf.2 (fun v hv => hP v (Or.inr hv))
+    simp only [heq2] at hI2 hE2 hL2 hS2
+    simp only [tseitinRep, heq1, heq2]
+    obtain ⟨h1, h2, h3, h4⟩ := getOrDefine_spec (k := .iff a b) hn hI2
+      (by
+        intro v hv
+        simp only [keyLits, List.mem_cons, List.not_mem_nil, or_false] at hv
+        rcases hv with rfl | rfl
+        · exact hL1.mono hE2.next_le
+        · exact hL2)
+      (fun r τ => iffDefs_sat τ a b r) (fun r => iffDefs_lits a b r)
+    refine ⟨h1, (hE1.trans hE2).trans h2, h3, fun τ hτ => ?_⟩
+    rw [h4 τ hτ]
+    simp only [keyVal, eval]
+    rw [hS2 τ (h2.sat τ hτ), hS1 τ (hE2.sat τ (h2.sat τ hτ))]
+  · -- not
+    intro f s a s1 heq1 ih hI hwf hP
+    simp only [Formula.WF] at hwf
+    simp only [Formula.vars] at hP
+    obtain ⟨hI1, hE1, hL1, hS1⟩ := ih hI hwf hP
+    simp only [heq1] at hI1 hE1 hL1 hS1
+    simp only [tseitinRep, heq1]
+    obtain ⟨h1, h2, h3, h4⟩ := getOrDefine_spec (k := .not a) hn hI1
+      (by
+        intro v hv
+        simp only [keyLits, List.mem_cons, List.not_mem_nil, or_false] at hv
+        subst hv; exact hL1)
+      (fun r τ => notDefs_sat τ a r) (fun r => notDefs_lits a r)
+    refine ⟨h1, hE1.trans h2, h3, fun τ hτ => ?_⟩
+    rw [h4 τ hτ]
+    simp only [keyVal, eval]
+    rw [hS1 τ (h2.sat τ hτ)]
+  · -- nil
+    intro s hI _ _
+    simp only [tseitinReps]
+    exact ⟨hI, Ext.refl s, by simp, fun _ _ => rfl⟩
+  · -- cons
+    intro f fs s v s1 heq1 vs s2 heq2 ihf ihfs hI hwf hP
+    simp only [Formula.WFs] at hwf
+    simp only [Formula.varsList, List.mem_append] at hP
+    obtain ⟨hI1, hE1, hL1, hS1⟩ := ihf hI hwf.1 (fun v hv => hP v (Or.inl hv))
+    simp only [heq1] at hI1 hE1 hL1 hS1
+    obtain ⟨hI2, hE2, hL2, hS2⟩ := ihfs hI1 hwf.2 (fun v hv => hP v (Or.inr hv))
+    simp only [heq2] at hI2 hE2 hL2 hS2
+    simp only [tseitinReps, heq1, heq2]
+    refine ⟨hI2, hE1.trans hE2, ?_, fun τ hτ => ?_⟩
+    · intro w hw
+      simp only [List.mem_cons] at hw
+      rcases hw with rfl | hw
+      · exact hL1.mono hE2.next_le
+      · exact hL2 w hw
+    · simp only [List.map_cons, hS2 τ hτ, hS1 τ (hE2.sat τ hτ)]
+
+/-! ### Top level -/
+
+theorem eval_congr_aux (n : Nat) (σ τ : Assign) (h : AgreeBelow n σ τ) :
+    ∀ f : Formula, f.WF n → f.eval σ = f.eval τ := by
+  apply Formula.rec (motive_1 := fun f => f.WF n → f.eval σ = f.eval τ)
+    (motive_2 := fun l => Formula.WFs n l → l.map (eval σ) = l.map (eval τ))
+  · intro i hw; simp only [Formula.WF] at hw; simp only [eval]; exact litVal_congr h i hw.1 hw.2
+  · intro l ih hw; simp only [Formula.WF] at hw
+    simp only [eval, evalAll_eq_all]; exact all_of_map_eq _ _ _ _ (ih hw)
+  · intro l ih hw; simp only [Formula.WF] at hw
+    simp only [eval, evalAny_eq_any]; exact any_of_map_eq _ _ _ _ (ih hw)
+  · intro f ih hw; simp only [Formula.WF] at hw; simp only [eval, ih hw]
+  · intro p q ihp ihq hw; simp only [Formula.WF] at hw; simp only [eval, ihp hw.1, ihq hw.2]
+  · intro p q ihp ihq hw; simp only [Formula.WF] at hw; simp only [eval, ihp hw.1, ihq hw.2]
+  · intro _; rfl
+  · intro f fs ihf ihfs hw; simp only [Formula.WFs] at hw
+    simp only [List.map_cons, ihf hw.1, ihfs hw.2]
+
+theorem eval_congr {n : Nat} {σ τ : Assign} (h : AgreeBelow n σ τ) (f : Formula) (hf : f.WF n) :
+    f.eval σ = f.eval τ := eval_congr_aux n σ τ h f hf
+
+/-- Everything the headline theorems need about a run of `toCnfTseitin`. -/
+theorem toCnfTseitin_spec (f : Formula) (n : Nat) (hn : 0 < n) (hf : f.WF n) :
+    ∃ s : TState, ∃ r : Int,
+      toCnfTseitin f n = { clauses := s.clauses.reverse, root := r, next := s.next } ∧
+      Inv n (· ∈ f.vars) s ∧ LitOK n (· ∈ f.vars) s.next r ∧
+      ∀ τ, tclsSat τ s.clauses = true → litVal τ r = f.eval τ := by
+  have h := (tseitin_spec n (· ∈ f.vars) hn).1 f { next := n, cache := [], clauses := [] }
+    (Inv.init n _) hf (fun v hv => hv)
+  refine ⟨(tseitinRep f { next := n, cache := [], clauses := [] }).2,
+    (tseitinRep f { next := n, cache := [], clauses := [] }).1, ?_, h.1, h.2.2.1, h.2.2.2⟩
+  simp only [toCnfTseitin]
+
+theorem cnfSat_tseitin (τ : Assign) (cs : List (List TLit)) (r : Int) (m : Nat)
+    (h : ∀ c ∈ cs, ∀ l ∈ c, l.v ≠ 0) :
+    cnfSat τ (({ clauses := cs.reverse, root := r, next := m } : TseitinResult).cnf)
+      = (tclsSat τ cs && litVal τ r) := by
+  simp only [TseitinResult.cnf, cnfSat, clauseSat, List.all_append, List.all_map, List.all_reverse,
+    List.all_cons, List.all_nil, List.any_cons, List.any_nil, Bool.or_false, Bool.and_true,
+    tclsSat, Function.comp_def, List.any_map]
+  congr 1
+  apply all_congr_mem
+  intro c hc
+  unfold tclSat
+  apply any_congr_mem
+  intro l hl
+  exact litVal_toInt τ l (h c hc l hl)
 
 end SPModel
